@@ -15,7 +15,9 @@ class C17(Prop):
             'MultiTestResult / ExtendedToStreamDecorator->StreamToExtendedDecorator over extended, testtools.TestResult, TestByTestResult and '
             'old-style (2.6/2.7/Twisted) recording results; histories of 0-6 tests x 1-2 runs over a 4-tag alphabet with tags(new, gone) before the '
             'run, between tests, before and after the outcome and after stopTest, incl. the startTest-less addSkip+stopTest pair; 10% damaged '
-            'histories, 5% overlapping new/gone, 30% of the Taggers remove-only. thorough adds every history of <= 6 calls from {startTestRun, startTest, success, stopTest, '
+            'histories, 5% overlapping new/gone, 30% of the Taggers remove-only; in 30% of the tests that have tags in force a tags() call removes all of them '
+            'before the outcome (outcome tags = the empty set); 12% of the graphs get an extra stream round trip on top; falsy-but-legal values: tag 3 is the '
+            'empty string, test 7 has the empty id, a third of the skip reasons are empty. thorough adds every history of <= 6 calls from {startTestRun, startTest, success, stopTest, '
             'tags +a, tags -a, tags +b} over 8 graphs. non-trivial = a tags call and an outcome and an adapter; distinct = distinct input')
     assumptions = ['recording results of the extended / old flavours are the harness\'s own classes; testtools.TestResult / TestByTestResult are observed '
                    'through logging subclasses; the stream behind ExtendedToStreamDecorator is observed by a recorder next to StreamToExtendedDecorator',
@@ -63,13 +65,19 @@ class C17(Prop):
     def gen_hist(self, rng, shape, kinds):
         strict = 'tbt' in kinds
         h = []
+        stack = [set()]          # the tag context the history builds up (run level first)
+
+        def put(c):
+            h.append(c)
+            stack[-1] |= set(c[1])
+            stack[-1] -= set(c[2])
 
         def tg(p):
             while rng.random() < p:
                 c = R.gen_tags_call(rng)
                 if rng.random() < 0.05 and c[1]:
                     c = ['tags', c[1], c[1][:1] + c[2]]      # overlapping new / gone
-                h.append(c)
+                put(c)
                 if rng.random() < 0.1:
                     h.append(rng.choice([['time', ['at', rng.randrange(9)]], ['stop']]))
         tid = rng.randrange(8)
@@ -77,6 +85,8 @@ class C17(Prop):
             tg(0.3)
         for run in range(rng.choice([1, 1, 2])):
             h.append(['startTestRun'])
+            del stack[:]
+            stack.append(set())
             for _ in range(rng.choice([0, 1, 2, 2, 3, 3, 4, 6])):
                 tg(0.45)
                 tid = (tid + rng.choice([0, 1, 2])) % 10
@@ -86,13 +96,18 @@ class C17(Prop):
                     h.append(['stopTest', tid])
                     continue
                 h.append(['startTest', tid])
+                stack.append(set(stack[-1]))
                 tg(0.5)
-                arg = None if kind in ('success', 'uxsuccess') else ['reason', chars('r')] if kind == 'skip' else ['exc', 'real']
+                if stack[-1] and rng.random() < 0.3:
+                    put(['tags', [], sorted(stack[-1])])       # the test removes every tag in force: its outcome carries the empty set
+                arg = None if kind in ('success', 'uxsuccess') else ['reason', chars(rng.choice(['r', 'r', '']))] if kind == 'skip' else ['exc', 'real']
                 if rng.random() < 0.2:
                     arg = ['details', R.gen_details(rng, allow_empty=False, nonempty_text=True)]   # empty details / attachments are C08's business
                 h.append(['add', kind, tid, arg])
                 tg(0.3)
                 h.append(['stopTest', tid])
+                if len(stack) > 1:
+                    stack.pop()
             tg(0.3)
             if rng.random() < 0.8:
                 h.append(['stopTestRun'])
@@ -119,6 +134,8 @@ class C17(Prop):
         shape = R.gen_shape(rng, rng.choice([1, 2, 2, 3]), leaves=leaves, inner=inner, fattr=0.15)
         while R.depth(shape) < 2 and rng.random() < 0.9:
             shape = R.gen_shape(rng, rng.choice([1, 2, 2, 3]), leaves=leaves, inner=inner, fattr=0.15)
+        if rng.random() < 0.12 and 'tbt' not in R.kinds_in(shape):
+            shape = ['e2s', ['etod', shape]] if shape[0] != 'etod' else ['e2s', shape]      # more stream round trips
         kinds = R.kinds_in(shape)
         return [shape, self.gen_hist(rng, shape, kinds)]
 
